@@ -277,6 +277,10 @@ def check_sbs(d, meta, W, out, counters):
                     if other.kind is None and not other.code_cells and k != ' ':
                         oorder = ro_ if side == 0 else lo_
                         ogot = [sbs.field_number(x) for _, x in other.fields]
+                        if any(n_ is not None and n_ >= 10 ** 6 for n_ in ogot + [onum, nnum]):
+                            # (numbers of ten digits can fill a narrow panel: a panel that shows no text is then not known to be empty)
+                            ogot = None
+                    if other.kind is None and not other.code_cells and k != ' ' and ogot is not None:
                         oexp = [((onum if ph_ == 'nm' else nnum) if first else None) for ph_ in oorder]
                         if first and len(ogot) == len(oexp) and all(a == b or (a is not None and b is not None and str(b).startswith(str(a)) and b >= 10 ** 6)
                                                                    for a, b in zip(ogot, oexp)):
